@@ -58,6 +58,9 @@ fn run_case(rng: &mut Rng, out: &mut CaseOut, focus: Focus, generations: u32, ma
         if obs.crashed {
             out.count("crashes");
         }
+        if !obs.read_refused.is_empty() {
+            out.count("store-read-failure-injected");
+        }
         if !obs.refused.is_empty() {
             out.count("store-failure-injected");
         }
